@@ -18,12 +18,14 @@ pub fn build(case: &Value, lperm: &[usize], aperm: &[usize], salt: usize) -> Res
     // how the declarations are handed to the builders - one at a time, in bulk, or mixed - is not part of the
     // configuration (ConfigBuild.tla): every build picks one of the styles
     let style = mix(salt * 31 + lperm.iter().fold(7usize, |a, x| a * 5 + x) + aperm.iter().fold(3usize, |a, x| a * 7 + x) + case["loggers"].as_array().unwrap().len());
+    // (a run of one declaration goes through the single-item method or through the bulk method with one item)
+    let single = |len: usize, k: usize| len == 1 && (style >> (9 + k)) & 1 == 0;
     let mut b = log4rs::Config::builder();
     let apps: Vec<log4rs::config::Appender> = aperm.iter()
         .map(|&ai| log4rs::config::Appender::builder().build(APPENDERS[ai], Box::new(CountingAppender(counters[ai].clone()))))
         .collect();
     for mut run in runs(apps, style) {
-        b = if run.len() == 1 { b.appender(run.pop().unwrap()) } else { b.appenders(run) };
+        b = if single(run.len(), 0) { b.appender(run.pop().unwrap()) } else { b.appenders(run) };
     }
     let loggers = case["loggers"].as_array().unwrap();
     let decls: Vec<log4rs::config::Logger> = lperm.iter().map(|&li| {
@@ -31,17 +33,17 @@ pub fn build(case: &Value, lperm: &[usize], aperm: &[usize], salt: usize) -> Res
         let mut lb = log4rs::config::Logger::builder().additive(l["add"].as_bool().unwrap());
         let names: Vec<String> = l["apps"].as_array().unwrap().iter().map(|a| a.as_str().unwrap().to_string()).collect();
         for mut run in runs(names, style / 25 + li) {
-            lb = if run.len() == 1 { lb.appender(run.pop().unwrap()) } else { lb.appenders(run) };
+            lb = if single(run.len(), 1 + li) { lb.appender(run.pop().unwrap()) } else { lb.appenders(run) };
         }
         lb.build(l["name"].as_str().unwrap(), level_filter(l["lvl"].as_i64().unwrap()))
     }).collect();
     for mut run in runs(decls, style / 5) {
-        b = if run.len() == 1 { b.logger(run.pop().unwrap()) } else { b.loggers(run) };
+        b = if single(run.len(), 5) { b.logger(run.pop().unwrap()) } else { b.loggers(run) };
     }
     let mut rb = log4rs::config::Root::builder();
     let names: Vec<String> = case["root"]["apps"].as_array().unwrap().iter().map(|a| a.as_str().unwrap().to_string()).collect();
     for mut run in runs(names, style / 125) {
-        rb = if run.len() == 1 { rb.appender(run.pop().unwrap()) } else { rb.appenders(run) };
+        rb = if single(run.len(), 6) { rb.appender(run.pop().unwrap()) } else { rb.appenders(run) };
     }
     // strict and lossy builds are both entry points to the same routing (the file loaders use the lossy one)
     // a third of the builds declare the root at Off and give it its level afterwards, through Config::root_mut():
